@@ -43,6 +43,8 @@ func main() {
 	fams := flag.String("fams", allFams, "families: k h s l z b(itmap) p(f) j(son)")
 	pairs := flag.Bool("pairs", false, "generate the batchable-pair sweep instead of random logs")
 	hllprobe := flag.Int("hllprobe", 0, "probe: stored bytes of one HyperLogLog key after a flush over this many identical runs")
+	sweep := flag.Bool("sweep", false, "generate the one-key-name-several-types logs for the local-deletion expiry sweep instead of random logs")
+	compact := flag.Bool("compact", false, "generate the expired-then-touched logs run on rocksdb with and without a forced compaction instead of random logs")
 	partial := flag.Bool("partial", false, "generate the part-way failing writes sweep (every restore cut) instead of random logs")
 	big := flag.Bool("big", false, "generate the big-collection logs (range deletions; mem, pebble and rocksdb) instead of random logs")
 	edge := flag.Bool("edge", false, "generate the edge-argument sweep of the batchable commands instead of random logs")
@@ -106,6 +108,10 @@ func main() {
 		logs, vars = genPairs(*tier == "thorough")
 	} else if *edge {
 		logs, vars = genEdges()
+	} else if *sweep {
+		logs, vars = genSweep()
+	} else if *compact {
+		logs, vars = genCompact()
 	} else if *partial {
 		logs, vars = genPartial()
 	} else if *big {
@@ -128,6 +134,15 @@ func main() {
 		}
 	}
 
+	if *replay == "" {
+		for _, l := range logs {
+			for _, v := range vars[l.ID] {
+				if !v.compactSet {
+					v.Compact = -1
+				}
+			}
+		}
+	}
 	cf := hx.Create(filepath.Join(*out, "cases.tsv"))
 	io := hx.Create(filepath.Join(*out, "impl.out"))
 	oo := hx.Create(filepath.Join(*out, "obs.out"))
@@ -310,6 +325,16 @@ func genVariants(r *hx.Rng, l *Log, idx int, tier string) []*Variant {
 		v18.Syncer = true
 		vs = append(vs, v16, v17, v18)
 	}
+	if l.Policy == "compact" && (thorough || idx%6 == 0) {
+		// rocksdb, the log years BEFORE the node's clock (everything that expired did so long ago), with and
+		// without a forced full compaction at a random position
+		v19 := mk(19, "rocksdb", partOne(n))
+		v19.Shift = 2
+		v19.Compact, v19.compactSet = r.Intn(n+1), true
+		v20 := mk(20, "rocksdb", partOne(n))
+		v20.Shift = 2
+		vs = append(vs, v19, v20)
+	}
 	if l.Policy == "local" && haveSweep {
 		// (on pebble; with the mem engine the sweep itself dead-locked as soon as expired keys of two data
 		// types were pending, until repo fix 0aa1de4 of the C10 builder)
@@ -372,7 +397,7 @@ func genPairs(thorough bool) ([]*Log, map[string][]*Variant) {
 							_ = pi
 							m := len(l.Reqs)
 							one := &Variant{ID: l.ID + ".v0", Engine: "mem", Part: partOne(m), Cut: -1, Expire: -1}
-							tog := &Variant{ID: l.ID + ".v1", Engine: "mem", Part: append(partOne(m - 2), []Call{{N: 1}, {N: 1}}), Cut: -1, Expire: -1}
+							tog := &Variant{ID: l.ID + ".v1", Engine: "mem", Part: append(partOne(m-2), []Call{{N: 1}, {N: 1}}), Cut: -1, Expire: -1}
 							logs = append(logs, l)
 							vars[l.ID] = []*Variant{one, tog}
 						}
@@ -566,6 +591,115 @@ func genBig() ([]*Log, map[string][]*Variant) {
 	return logs, vars
 }
 
+// genCompact: a value of every type gets a TTL, expires (by the log's timestamps), and is then touched by
+// a read-modify-write command; wait_compact policy, the log years before the node's clock. Run on rocksdb
+// with a forced full compaction right after the expiry (its compaction filter drops, on the node's own
+// clock, what has been expired for more than 48 h) and without, and on pebble and mem: whether the dead
+// data is still physically there must not show in any reply or in the data.
+func genCompact() ([]*Log, map[string][]*Variant) {
+	type cls struct {
+		create [][]string
+		expire []string
+		touch  [][]string
+	}
+	classes := []cls{
+		{[][]string{{"hmset", "t:k", "f", "41", "g", "x"}}, []string{"hexpire", "t:k", "2"},
+			[][]string{{"hincrby", "t:k", "f", "1"}, {"hsetnx", "t:k", "f", "9"}, {"hset", "t:k", "g", "y"}, {"hdel", "t:k", "f"}, {"hmset", "t:k", "h", "1"}, {"hclear", "t:k"}, {"hpersist", "t:k"}, {"hexpire", "t:k", "5"}}},
+		{[][]string{{"set", "t:k", "41"}}, []string{"expire", "t:k", "2"},
+			[][]string{{"incr", "t:k"}, {"append", "t:k", "x"}, {"setnx", "t:k", "9"}, {"getset", "t:k", "9"}, {"set", "t:k", "9", "xx"}, {"setrange", "t:k", "1", "z"}, {"del", "t:k"}, {"persist", "t:k"}, {"expire", "t:k", "5"}, {"setifeq", "t:k", "41", "9"}, {"delifeq", "t:k", "41"}}},
+		{[][]string{{"rpush", "t:k", "a", "b"}}, []string{"lexpire", "t:k", "2"},
+			[][]string{{"lpush", "t:k", "c"}, {"rpop", "t:k"}, {"lset", "t:k", "0", "z"}, {"ltrim", "t:k", "0", "0"}, {"lclear", "t:k"}, {"lpersist", "t:k"}}},
+		{[][]string{{"sadd", "t:k", "a", "b"}}, []string{"sexpire", "t:k", "2"},
+			[][]string{{"sadd", "t:k", "a"}, {"srem", "t:k", "a"}, {"spop", "t:k"}, {"sclear", "t:k"}, {"spersist", "t:k"}}},
+		{[][]string{{"zadd", "t:k", "1", "a", "2", "b"}}, []string{"zexpire", "t:k", "2"},
+			[][]string{{"zincrby", "t:k", "5", "a"}, {"zadd", "t:k", "9", "a"}, {"zrem", "t:k", "a"}, {"zremrangebyrank", "t:k", "0", "0"}, {"zremrangebyscore", "t:k", "0", "5"}, {"zclear", "t:k"}, {"zpersist", "t:k"}}},
+		{[][]string{{"setbitv2", "t:k", "9", "1"}}, []string{"bexpire", "t:k", "2"},
+			[][]string{{"setbitv2", "t:k", "3", "1"}, {"bitclear", "t:k"}, {"bpersist", "t:k"}}},
+	}
+	var logs []*Log
+	vars := map[string][]*Variant{}
+	n := 0
+	for _, c := range classes {
+		for _, t := range c.touch {
+			n++
+			l := &Log{ID: "C" + strconv.Itoa(n), Policy: "compact"}
+			ts := int64(sec)
+			l.Reqs = append(l.Reqs, mkReq([]string{"set", "t:other", "1"}, ts))
+			for _, a := range c.create {
+				ts += sec
+				l.Reqs = append(l.Reqs, mkReq(a, ts))
+			}
+			ts += 1
+			l.Reqs = append(l.Reqs, mkReq(c.expire, ts))
+			cutAt := len(l.Reqs)
+			ts += 10 * sec // well past the expiry
+			l.Reqs = append(l.Reqs, mkReq(t, ts))
+			ts += 1
+			l.Reqs = append(l.Reqs, mkReq(t, ts)) // and once more on whatever the first touch left
+			ts += 1
+			l.Reqs = append(l.Reqs, mkReq([]string{"set", "t:other", "2"}, ts))
+			m := len(l.Reqs)
+			logs = append(logs, l)
+			mkv := func(k int, eng string, comp int) *Variant {
+				return &Variant{ID: l.ID + ".v" + strconv.Itoa(k), Engine: eng, Part: partOne(m), Shift: 2, Cut: -1, Expire: -1, Compact: comp, compactSet: true}
+			}
+			vars[l.ID] = []*Variant{mkv(0, "rocksdb", -1), mkv(1, "rocksdb", cutAt), mkv(2, "pebble", -1), mkv(3, "mem", -1), mkv(4, "pebble", cutAt)}
+		}
+	}
+	return logs, vars
+}
+
+// genSweep: local-deletion policy, ONE key name holding values of several data types of which only one
+// gets a TTL; the log lies years before the node's clock, the node-local expiry sweep runs after the TTL
+// command on one replica and never on the other: only the value with the TTL may disappear.
+func genSweep() ([]*Log, map[string][]*Variant) {
+	create := map[string][]string{
+		"k": {"set", "t:x", "v"}, "h": {"hmset", "t:x", "f", "1"}, "l": {"rpush", "t:x", "a", "b"},
+		"s": {"sadd", "t:x", "m"}, "z": {"zadd", "t:x", "1", "m"},
+	}
+	ttl := map[string][]string{
+		"k": {"expire", "t:x", "1"}, "h": {"hexpire", "t:x", "1"}, "l": {"lexpire", "t:x", "1"},
+		"s": {"sexpire", "t:x", "1"}, "z": {"zexpire", "t:x", "1"},
+	}
+	touch := map[string][]string{
+		"k": {"append", "t:x", "w"}, "h": {"hincrby", "t:x", "f", "1"}, "l": {"rpush", "t:x", "c"},
+		"s": {"sadd", "t:x", "n"}, "z": {"zincrby", "t:x", "1", "m"},
+	}
+	types := []string{"k", "h", "l", "s", "z"}
+	var logs []*Log
+	vars := map[string][]*Variant{}
+	n := 0
+	for _, a := range types {
+		n++
+		l := &Log{ID: "W" + strconv.Itoa(n), Policy: "local"}
+		ts := int64(sec)
+		for _, t := range types {
+			ts += 1
+			l.Reqs = append(l.Reqs, mkReq(create[t], ts))
+		}
+		if a == "k" {
+			// SETEX creates and expires in one command
+			ts += 1
+			l.Reqs = append(l.Reqs, mkReq([]string{"setex", "t:x", "1", "v2"}, ts))
+		}
+		ts += 1
+		l.Reqs = append(l.Reqs, mkReq(ttl[a], ts))
+		at := len(l.Reqs)
+		ts += 5 * sec
+		for _, t := range types {
+			ts += 1
+			l.Reqs = append(l.Reqs, mkReq(touch[t], ts))
+		}
+		m := len(l.Reqs)
+		logs = append(logs, l)
+		mkv := func(k int, exp int) *Variant {
+			return &Variant{ID: l.ID + ".v" + strconv.Itoa(k), Engine: "pebble", Part: partOne(m), Shift: 2, Cut: -1, Expire: exp, Compact: -1}
+		}
+		vars[l.ID] = []*Variant{mkv(0, -1), mkv(1, at), mkv(2, m)}
+	}
+	return logs, vars
+}
+
 func mkReq(a []string, ts int64) Req {
 	r := Req{Kind: 'R', Ts: ts}
 	for _, s := range a {
@@ -578,7 +712,7 @@ func mkReq(a []string, ts int64) Req {
 
 func project(l *Log, v *Variant, keep []bool) (*Log, *Variant) {
 	nl := &Log{ID: l.ID, Policy: l.Policy}
-	nv := &Variant{ID: v.ID, Engine: v.Engine, Replay: v.Replay, Shift: v.Shift, Syncer: v.Syncer, Cut: -1, Expire: -1}
+	nv := &Variant{ID: v.ID, Engine: v.Engine, Replay: v.Replay, Shift: v.Shift, Syncer: v.Syncer, Cut: -1, Expire: -1, Compact: -1}
 	pos := 0
 	kept := 0
 	for _, op := range v.Part {
@@ -591,6 +725,9 @@ func project(l *Log, v *Variant, keep []bool) (*Log, *Variant) {
 				}
 				if pos == v.Expire {
 					nv.Expire = kept
+				}
+				if pos == v.Compact {
+					nv.Compact = kept
 				}
 				if keep[pos] {
 					m++
@@ -611,6 +748,9 @@ func project(l *Log, v *Variant, keep []bool) (*Log, *Variant) {
 	}
 	if v.Expire >= pos {
 		nv.Expire = kept
+	}
+	if v.Compact >= pos {
+		nv.Compact = kept
 	}
 	for i, r := range l.Reqs {
 		if keep[i] {
